@@ -47,7 +47,7 @@ func (c c16Case) String() string {
 	return s
 }
 
-func judgeC16(c c16Case) (string, string) {
+func judgeC16Raw(c c16Case) (string, string) {
 	root := scratch.Dir("cp")
 	defer scratch.Remove(root)
 	// the roots carry pattern metacharacters in their own names: only what lies below a root is ever matched
@@ -105,7 +105,7 @@ func judgeC16(c c16Case) (string, string) {
 		for _, p := range append(closure(c.Tree, kept), closure(c.Tree, ck)...) {
 			sel[p] = true
 		}
-		fscopy.Copy(context.Background(), src, "/", dst, "/", fscopy.WithCopyInfo(ci)) // conflicts may fail the call
+		boundedCopy(func() error { return fscopy.Copy(context.Background(), src, "/", dst, "/", fscopy.WithCopyInfo(ci)) }) // conflicts may fail the call
 		after, err := fsmodel.Snapshot(dst)
 		if err != nil {
 			return "infra", err.Error()
@@ -431,4 +431,14 @@ func replayC16(raw json.RawMessage) string {
 		return ""
 	}
 	return k + ": " + m
+}
+
+// judgeC16 is judgeC16Raw with a panic of the code under test turned into a verdict (never a crash of the check).
+func judgeC16(c c16Case) (k, m string) {
+	defer func() {
+		if r := recover(); r != nil {
+			k, m = "panic", fmt.Sprintf("the code under test panicked: %v", r)
+		}
+	}()
+	return judgeC16Raw(c)
 }
